@@ -51,6 +51,8 @@ impl<'a> SocketWrite<'a> {
                 }
             }
 
+            #[cfg(may_verif)]
+            may_queue::verif::point(may_queue::verif::site::IO_WRITE_EAGAIN, 0);
             if self.io_data.io_flag.load(Ordering::Relaxed) != 0 {
                 continue;
             }
@@ -71,7 +73,11 @@ impl EventSource for SocketWrite<'_> {
                 .get_selector()
                 .add_io_timer(self.io_data, dur);
         }
+        #[cfg(may_verif)]
+        may_queue::verif::point(may_queue::verif::site::IO_WRITE_SUB_ARMED, 0);
         io_data.co.store(co);
+        #[cfg(may_verif)]
+        may_queue::verif::point(may_queue::verif::site::IO_WRITE_SUB_STORED, 0);
 
         // there is event, re-run the coroutine
         if io_data.io_flag.load(Ordering::Acquire) != 0 {
